@@ -403,6 +403,34 @@ func runC12() {
 				hasBool = true
 			}
 		}
+		// the whole declared range of every literal kind, not one sample of it: counts beyond 32 bits, floats of either sign and
+		// any magnitude, the empty string, the first and the last year - each is read as the kind the ontology declares
+		rangeSamples := map[string][]interface{}{
+			"V:nonNegativeInteger": {float64(0), float64(2147483647), float64(2147483648), float64(4000000000), float64(9007199254740991)},
+			"V:float":              {float64(0), float64(-1), 1e300, -1e300, 1e-300, float64(4000000000)},
+			"V:string":             {"", " ", "4000000000", "true"},
+			"V:dateTime":           {"0000-01-01T00:00:00Z", "9999-12-31T23:59:59Z", "1970-01-01T00:00:00+14:00"},
+			"V:duration":           {"P", "PT0S", "P292Y", "-P292Y", "PT9223372036S"},
+		}
+		for _, m := range p.Members {
+			vals, ok := rangeSamples[m.Kind]
+			if !ok {
+				continue
+			}
+			want := "@" + strings.ToLower(strings.TrimPrefix(m.Kind, "V:"))
+			base, _ := kindsOf(ty, p, p.Name, litSamples[want])
+			if !strings.Contains(base, want) {
+				continue // another kind of the chain takes this kind's sample first (units: string before anyURI, ...)
+			}
+			for _, val := range vals {
+				got, _ := kindsOf(ty, p, p.Name, val)
+				if got != base {
+					s.Violations = append(s.Violations, Violation{What: fmt.Sprintf("property %s reads %v (in the range of %s) as %s, its sample %v as %s", p.Name, val, m.Kind, got, litSamples[want], base),
+						Sig: "C12:range:" + p.Name + ":" + m.Kind, Replay: map[string]interface{}{"type": ty.Name, "property": p.Name, "value": val, "kind": m.Kind}})
+					break
+				}
+			}
+		}
 		if hasBool { // the lexical space of xsd:boolean: true, false, 1, 0 and no other number
 			for _, num := range []float64{7, 2.5, -1, 4000000000} {
 				got, _ := kindsOf(ty, p, p.Name, num)
